@@ -794,7 +794,7 @@ class Checker:
 def case_budget(case, tier):
     if case.get("budget"):
         return case["budget"]
-    return 20.0 if tier == "quick" else 90.0
+    return 20.0 if tier == "quick" else 60.0
 
 
 class Outcome:
@@ -1144,7 +1144,11 @@ def order_strategy(draw, full_bias=False):
 
 
 @st.composite
-def case_strategy(draw, sizes, simplify, pair=None):
+def case_strategy(draw, sizes, simplify, pair=None, alt=None):
+    """alt=(sizes, simplify, percent): with that probability draw from the
+    alternative size table / flag instead."""
+    if alt is not None and draw(st.integers(0, 99)) < alt[2]:
+        sizes, simplify = alt[0], alt[1]
     c = draw(metric(sizes))
     c["simplify"] = simplify
     c["points"] = [draw(point(c["dim"])) for _ in range(2)]
@@ -1249,15 +1253,13 @@ def subchecks(tier):
     else:
         s_sizes = [(2, TINY2), (2, SMALL2), (3, TINY3), (4, TINY4)]
         ns_sizes = [(2, FULL), (3, FULL), (3, MID3), (4, SPARSE4), (4, MID4)]
-    order_cases = case_strategy(ns_sizes, False, "order")
-    if not q:
-        order_cases = st.one_of(order_cases, order_cases, order_cases,
-                                case_strategy(s_sizes, True, "order"))
+    order_cases = case_strategy(ns_sizes, False, "order",
+                                alt=None if q else (s_sizes, True, 10))
     # cheap sub-checks first: the runner serves jobs in this order and stops
     # generating when the tier's wall budget (BUDGET_S) is used up
     return [
         Sub("textbook_nosimplify", case_strategy(ns_sizes, False),
-            make_test_textbook(tier), 48 if q else 2000,
+            make_test_textbook(tier), 48 if q else 1400,
             generic=[fixed(G3, False, DIRECT_FIRST),
                      fixed(G3, False, UDDD_FIRST),
                      fixed(G4, False, UDDD_FIRST),
@@ -1266,13 +1268,13 @@ def subchecks(tier):
                      fixed(G2, False, UDDD_FIRST)],
             shards=8 if q else 16, shrink_quick=False, max_rounds=4),
         Sub("order_indep", order_cases, make_test_pair(tier, "order"),
-            32 if q else 1000,
+            32 if q else 400,
             generic=[fixed(G3, False, DIRECT_FIRST, order2=UDDD_FIRST),
                      fixed(G2, True, DIRECT_FIRST[:2],
                            order2=UDDD_FIRST[:6])],
             shards=8 if q else 16, shrink_quick=False, max_rounds=3),
         Sub("textbook_simplify", case_strategy(s_sizes, True),
-            make_test_textbook(tier), 12 if q else 160,
+            make_test_textbook(tier), 12 if q else 112,
             generic=[fixed(G2, True, ["Ricci_down", "Riemann_down",
                                       "Riemann_uddd", "RicciS"]),
                      fixed(G2, True, ["gup", "gdet", "Gamma_udd", "Gamma_down",
@@ -1282,7 +1284,7 @@ def subchecks(tier):
                      fixed(G3D, True, UDDD_FIRST)],
             shards=4 if q else 16, shrink_quick=False, max_rounds=2),
         Sub("simplify_indep", case_strategy(s_sizes, True),
-            make_test_pair(tier, "simplify"), 8 if q else 96,
+            make_test_pair(tier, "simplify"), 8 if q else 48,
             generic=[fixed(G2, True, UDDD_FIRST[:7]),
                      fixed(G3D, True, DIRECT_FIRST[:2])],
             shards=4 if q else 16, shrink_quick=False, max_rounds=2),
